@@ -40,7 +40,7 @@ ASSUMPTIONS = [
     "the opcode is compared with the attached command set's own entry (its T10-correctness is C14, not claimed)",
     "whether decoded *values* are right is C04; here cmd.result must equal the class's own unmarshall_datain of the final buffer and differ from that of the untouched buffer",
 ]
-REQUIRED_PROBES = ["plain", "sgio", "iscsi", "decode_after_execute", "all_optionals", "no_optionals", "reattached", "history_call", "faulted_call", "documented_default_ok"]
+REQUIRED_PROBES = ["plain", "sgio", "iscsi", "decode_after_execute", "all_optionals", "no_optionals", "reattached", "history_call", "faulted_call", "documented_default_ok", "plain_device_raises"]
 
 SET_TYPE = {"spc": 3, "sbc": 0, "ssc": 1, "smc": 8, "mmc": 5}
 
@@ -306,6 +306,9 @@ def gen_one(rng, method=None, setname=None):
     op = {"cfg": {"method": method, "set": setname or rng.choice(sets_of(method)), "device": rng.choice(["plain", "plain", "sgio", "iscsi"]),
                   "blocksize": rng.choice([512, 512, 1, 4096]), "nonce": rng.randrange(1 << 32) & (~0xF if rng.random() < 0.08 else ~0)},
           "pos": pos, "kw": kw, "reattach": rng.random() < 0.6}
+    if op["cfg"]["device"] == "plain" and rng.random() < 0.1:
+        # an application-defined device object fails in its own way (after it took the command): still handed over exactly once
+        op["fault"] = {"kind": "device_raises", "exc": rng.choice(["TypeError", "RuntimeError", "OSError", "ValueError", "AttributeError", "KeyError"])}
     if op["cfg"]["device"] != "plain" and rng.random() < 0.2:
         # the device fails this command: it must still have been handed over exactly once
         op["fault"] = rng.choice([{"kind": "status", "byte": 2, "sense": "70000600000000000a00000000290000000000"},
@@ -327,7 +330,17 @@ def generate(rng, idx, tier):
                 op["judged"] = False
                 ops.append(op)
                 continue
-        ops.append(gen_one(rng))
+        op = gen_one(rng)
+        if rng.random() < 0.15:
+            # the application looks at the device once more before the call (a standard INQUIRY through the same facade, answered
+            # with whatever the history script returns - possibly nothing): commands do not re-select the command set
+            pre = gen_one(rng, "inquiry", op["cfg"]["set"])
+            pre["cfg"]["device"], pre["cfg"]["blocksize"] = op["cfg"]["device"], op["cfg"]["blocksize"]
+            pre["kw"] = {k: v for k, v in pre["kw"].items() if k == "alloclen"}
+            pre["judged"] = False
+            ops.append(pre)
+            op["reattach"] = True
+        ops.append(op)
     return {"property": ID, "config": ops[-1]["cfg"], "ops": ops}
 
 
@@ -582,15 +595,27 @@ def _one_call(cfg, op, ctx):
     del handed[:]
     V = []
     where = "%s/%s" % (method, setname)
+    attached_now = False
     if ctx["scsi"] is None or (ctx["dev"] is not dev and not op.get("reattach")):
         ctx["scsi"] = SCSI(dev, blocksize=cfg["blocksize"])
+        attached_now = True
     elif ctx["dev"] is not dev:
         ctx["scsi"](dev)
         WORLD.probe("reattached")
+        attached_now = True
     ctx["dev"] = dev
+    sets = ctx.setdefault("set_at_attach", {})
+    if attached_now or id(dev) not in sets:
+        sets[id(dev)] = dev.opcodes           # the command set the attach selected for this device
     scsi = ctx["scsi"]
     scsi.blocksize = cfg["blocksize"]
     WORLD.probe(device)
+    if dev.opcodes is not sets[id(dev)]:
+        # between the attach and this call only facade commands were made: none of them may replace the device's command set
+        V.append(dict(oracle="C13.command-set-replaced", where=where, detail="after-attach",
+                      expected="the command set selected when the device was attached (%s) is still the device's" % setname,
+                      actual="device.opcodes was replaced by an earlier facade call of this history"))
+        dev.opcodes = sets[id(dev)]
     if op.get("judged", True) is False:
         # a call made only to create history (e.g. a command this set does not define): any outcome, nothing judged
         lu.script = lambda cdb, dataout, xfer_in: bytes(xfer_in)
@@ -601,7 +626,7 @@ def _one_call(cfg, op, ctx):
         lu.script = None
         del handed[:]
         WORLD.probe("history_call")
-        return [], {"outcome": "history:%s" % ("ok" if k0 == "ok" else type(v0).__name__)}, False
+        return V, {"outcome": "history:%s" % ("ok" if k0 == "ok" else type(v0).__name__)}, False
     if dev.opcodes is not getattr(E, setname):
         # the attach did not select the set this run wants to exercise: that is C16's business, nothing to judge here
         WORLD.probe("attach_selected_other_set")
@@ -633,6 +658,11 @@ def _one_call(cfg, op, ctx):
     if op.get("fault") and device != "plain":
         WORLD.arm(op["fault"])
         WORLD.probe("faulted_call")
+    if op.get("fault") and device == "plain" and op["fault"].get("kind") == "device_raises":
+        dev.fail_with = {"TypeError": TypeError, "RuntimeError": RuntimeError, "OSError": OSError, "ValueError": ValueError,
+                         "AttributeError": AttributeError, "KeyError": KeyError}[op["fault"]["exc"]]("the device object's own failure")
+        calls0 = len(dev.calls)
+        WORLD.probe("plain_device_raises")
     mark = len(WORLD.deliveries)
     n_ev = len(WORLD.events)
     kind, val = worlds.outcome_of(lambda: getattr(scsi, method)(*args, **kw))
@@ -648,6 +678,14 @@ def _one_call(cfg, op, ctx):
     def done():
         return V, summary, (kind == "ok" and len(dl) == 1)
 
+    if op.get("fault") and device == "plain" and op["fault"].get("kind") == "device_raises":
+        n_calls = len(dev.calls) - calls0
+        dev.fail_with = None
+        if n_calls != 1 or kind == "ok":
+            V.append(dict(oracle="C13.exactly-once", where=where, detail="device-raises/%s/count=%d" % (op["fault"]["exc"], n_calls),
+                          expected="the command handed to the (failing) device object exactly once, and its error reaches the caller",
+                          actual="device.execute %d time(s); call %s" % (n_calls, "returned" if kind == "ok" else "raised %s" % type(val).__name__)))
+        return V, summary, False
     if op.get("fault") and device != "plain":
         WORLD.armed.clear()
         if len(dl) != 1 or len(handed) != 1:
